@@ -36,11 +36,11 @@ def J(name, template, lens, flagsets=(3,), split=16, chunk=30):
 
 def jobs(tier):
     if tier == "quick":
-        return [J("T4-9", "T4", [9]), J("T4-10", "T4", [10], flagsets=(0, 3)), J("T3-16", "T3", [16], flagsets=(2,)), J("T6-12", "T6", [12], flagsets=(3,)),
+        return [J("T4-9", "T4", [9]), J("T4-10", "T4", [10], flagsets=(0, 3)), J("T3-16", "T3", [16], flagsets=(2,)), J("T6-12", "T6", [12], flagsets=(3,)), J("T8-8-8", "T8", [8, 8], flagsets=(3,)),
                 J("JPSSC-71", "JPSS_CONTRIVED", [71])]
     out = [J(f"T4-{n}", "T4", [n], flagsets=(0, 1, 2, 3)) for n in (8, 9, 10, 11)]
     out += [J(f"T3-{n}", "T3", [n], flagsets=(1, 2)) for n in (15, 16, 17)]
-    out += [J("T6-12", "T6", [12], flagsets=(0, 3)), J("T6-13", "T6", [13], flagsets=(3,)), J("T7-8", "T7", [8], flagsets=(3,)), J("JPSSC-71", "JPSS_CONTRIVED", [71], flagsets=(0, 3)), J("JPSS-71", "JPSS", [71], flagsets=(2,)), J("T1-19", "T1", [19], flagsets=(2,))]
+    out += [J("T8-8-8", "T8", [8, 8], flagsets=(0, 3)), J("T8-9-8-8", "T8", [9, 8, 8], flagsets=(3,)), J("T6-12", "T6", [12], flagsets=(0, 3)), J("T6-13", "T6", [13], flagsets=(3,)), J("T7-8", "T7", [8], flagsets=(3,)), J("JPSSC-71", "JPSS_CONTRIVED", [71], flagsets=(0, 3)), J("JPSS-71", "JPSS", [71], flagsets=(2,)), J("T1-19", "T1", [19], flagsets=(2,))]
     return out
 
 
